@@ -243,7 +243,10 @@ fn main() {
             }
             for k in 0..count {
                 let idx = from + k;
-                let c = if profile == "inproc" {
+                let c = if profile == "inprocfail" {
+                    let b = inprocstream::run_fail_case(master, idx);
+                    metastream::MetaCase { coq: b.coq, json: b.json }
+                } else if profile == "inproc" {
                     let b = inprocstream::run_case(master, idx);
                     metastream::MetaCase { coq: b.coq, json: b.json }
                 } else if profile == "bench" {
